@@ -63,7 +63,7 @@ def _anchors(ctx, R):
 def r1_mode_table(ctx):
     R = ctx.rule("C16.R1", "task mode -> execution context: CancelOnDisconnect awaits handle_request inside the request future (no spawn on the arm); Detached runs it only inside the "
                  "coroutine given to tokio::spawn, which owns a clone of handler_waitgroup_worker until the handler future has completed and sends the handler result on the oneshot "
-                 "the request future awaits; no task-abort API is used in the crate", floor=12)
+                 "the request future awaits; no task-abort API is used in the crate", floor=13)
     A = _anchors(ctx, R)
     if A is None:
         return
@@ -169,9 +169,13 @@ def r2_exactly_once(ctx):
     hb = A.hb
     all_calls = [(f, bb) for f, bb, t in callers(ctx.ds, HANDLE) if not f.id.startswith("test_util")]
     under = [hb] + ctx.ds.descendants(hb)
+    for sbb0, st0 in A.spawns:      # the task body may be an `async fn` called in the spawn argument
+        g0, _n0 = spawned_coroutine(hb, st0)
+        if g0 is not None and g0 not in under:
+            under += [g0] + ctx.ds.descendants(g0)
     outside = [(f.id, bb) for f, bb in all_calls if f not in under]
     ctx.check(R, "handler-call-census", len(all_calls) == 2 and not outside,
-              "RouteHandler::handle_request call sites in the crate: %d; outside http_request_handle: %s" % (len(all_calls), outside), hb)
+              "RouteHandler::handle_request call sites in the crate: %d; outside http_request_handle and its spawned task: %s" % (len(all_calls), outside), hb)
     loops = hb.loop_blocks()
     on_cancel = [(bb, t) for bb, t in A.direct if hb.edge_dominates(A.sw, A.cancel, bb)]
     if len(on_cancel) == 1:
@@ -210,7 +214,7 @@ def r2_exactly_once(ctx):
 
 def r3_panic_propagation(ctx):
     R = ctx.rule("C16.R3", "resume_unwind is reachable only from the Err edge of `rx.await` in the Detached arm and re-raises the panic taken from the spawned task's JoinHandle; "
-                 "the Ok edge yields the handler's result", floor=4)
+                 "the Ok edge yields the handler's result", floor=5)
     A = _anchors(ctx, R)
     if A is None:
         return
@@ -273,7 +277,7 @@ SELFTEST = [
     {"name": "cancel-arm-spawns", "kind": "mutant", "why": "in CancelOnDisconnect mode the handler would survive a disconnect",
      "edits": [(_S, "            handler.handle_request(rqctx, request).await?\n", "            tokio::spawn(async move { handler.handle_request(rqctx, request).await }).await.unwrap()?\n")],
      "expect": ["C16.R1"]},
-    {"name": "detached-retry-loop", "kind": "mutant", "why": "result sent only on some paths / handler not on every path of the task",
+    {"name": "task-early-return", "kind": "mutant", "why": "the spawned task can finish without ever running the handler (and gives up the worker before it)",
      "edits": [(_S, "                let result = handler.handle_request(rqctx, request).await;\n", "                if rqctx.request_id.is_empty() { return; }\n                let result = handler.handle_request(rqctx, request).await;\n")],
      "expect": ["C16.R2"]},
     {"name": "rename-locals", "kind": "benign", "why": "behaviour-preserving: locals renamed",
@@ -294,4 +298,7 @@ SELFTEST = [
     {"name": "await-split", "kind": "benign", "why": "behaviour-preserving: the handler future is bound to a local before being awaited; the received result is bound before `?`",
      "edits": [(_S, "            handler.handle_request(rqctx, request).await?\n", "            let fut = handler.handle_request(rqctx, request);\n            let r = fut.await;\n            r?\n"),
                (_S, "                Ok(result) => result?,", "                Ok(result) => { let r = result; r? }")]},
+    {"name": "task-body-extracted-to-async-fn", "kind": "benign", "why": "behaviour-preserving: the detached task's body is an `async fn` called in the spawn argument instead of an inline async block",
+     "edits": [(_S, "            let handler_task = tokio::spawn(async move {\n                let request_log = rqctx.log.clone();", "            let handler_task = tokio::spawn(run_detached(rqctx, handler, request, tx, worker));\n            #[cfg(any())]\n            let _unused = (async move {\n                let request_log = rqctx.log.clone();"),
+               (_S, "async fn http_request_handle<C: ServerContext>(", "async fn run_detached<C: ServerContext>(\n    rqctx: RequestContext<C>,\n    handler: Arc<dyn crate::handler::RouteHandler<C>>,\n    request: Request<crate::Body>,\n    tx: oneshot::Sender<Result<Response<Body>, HandlerError>>,\n    worker: DebugIgnore<waitgroup::Worker>,\n) {\n    let request_log = rqctx.log.clone();\n    let result = handler.handle_request(rqctx, request).await;\n    if let Err(result) = tx.send(result) {\n        match result {\n            Ok(r) => warn!(request_log, \"request completed after handler was already cancelled\"; \"response_code\" => r.status().as_u16()),\n            Err(error) => warn!(request_log, \"request completed after handler was already cancelled\"; \"response_code\" => error.status_code().as_u16()),\n        }\n    }\n    mem::drop(worker);\n}\n\nasync fn http_request_handle<C: ServerContext>(")]},
 ]
